@@ -250,9 +250,91 @@ def _enumerate_type(args):
     return out
 
 
+def _enumerate_meta(args):
+    """The same tables observed through a MetaModule's user-defined controller mapped onto (type, controller, unit):
+    it takes the target's range (per instance, so under the target's unit), both freshly built and after a file round
+    trip.  Assignment to a user-defined controller pushes the value into the embedded module, so the table is walked from
+    the stored side: set_raw(r) for every r, the value it denotes, get_raw of that value."""
+    t, st, complete, seed = args
+    import io
+    import random
+    from .common import setup_repo_path
+    setup_repo_path()
+    import rv.api as api
+    rnd = random.Random(seed + 1)
+    cls = classes().get(t)
+    out = []
+    if cls is None or t == "MetaModule":
+        return out
+    names = list(cls.controllers)
+    for i, c in enumerate(st["ctls"], 1):
+        if c["kind"] not in ("range", "dep", "compact", "nooffset"):
+            continue
+        if not (c["kind"] == "dep" or c["min"] < 0 or (i + seed) % 4 == 0):
+            continue
+        for u in units_of(st, c):
+            uname = names[c["dep"] - 1] if c["kind"] == "dep" else None
+            lo, hi = c["min"], c["max"]
+            if c["kind"] == "dep":
+                lo, hi = next(((a, b) for uu, a, b in c["ranges"] if uu == u), c["defrange"])
+            for via in ("meta-built", "meta-loaded"):
+                try:
+                    mm = api.m.MetaModule()
+                    emb = api.Project()
+                    tm = cls(**({uname: u} if uname else {}))
+                    emb.attach_module(tm)
+                    mm.project = emb
+                    emb.metamodule = mm
+                    mm.mappings.values[0].module = tm.index
+                    mm.mappings.values[0].controller = i - 1
+                    mm.user_defined_controllers = 1
+                    mm.update_user_defined_controllers()
+                    if via == "meta-loaded":
+                        mm = api.read_sunvox_file(io.BytesIO(api.Synth(mm).read())).module
+                    name = "user_defined_1"
+                    ctl_obj = type(mm).controllers[name]
+                except Exception:
+                    out.append({"op": "raws", "t": t, "i": i, "u": u, "lo": lo, "hi": hi, "complete": True, "via": via,
+                                "raws": [[lo, -777777, 1]], "back": [[lo, -777777, 1]], "pat": None, "patends": [-777777, -777777]})
+                    continue
+                ws, comp = _windows(lo, hi, complete and hi - lo <= 70000, rnd)
+
+                def pv(v):
+                    try:
+                        return int(ctl_obj.pattern_value(mm, v))
+                    except Exception:
+                        return -777777
+                patends = [pv(lo), pv(hi)]
+                pat = [pv(v) for v in range(lo, hi + 1)] if comp else None
+                off = -lo if (lo < 0 and c["kind"] != "nooffset") else 0
+                raws, back = [], []
+                for a, b in ws:
+                    for v0 in range(a, b + 1):
+                        r0 = v0 + off                      # the stored value that denotes v0
+                        try:
+                            mm.set_raw(name, r0)
+                            v = val(getattr(mm, name))
+                        except Exception:
+                            v = -777777
+                        if v != v0:                        # set_raw did not yield the value the stored number denotes
+                            raws.append((v0, -777777))
+                            back.append((v0, v))
+                            continue
+                        try:
+                            r = int(mm.get_raw(name))
+                        except Exception:
+                            r = -777777
+                        raws.append((v0, r))
+                        back.append((v0, v))
+                out.append({"op": "raws", "t": t, "i": i, "u": u, "lo": lo, "hi": hi, "complete": comp, "via": via,
+                            "raws": runs(raws), "back": runs(back), "pat": pat, "patends": patends})
+    return out
+
+
 def enumerate_tables(spec, complete, seed, procs=16):
     import multiprocessing as mp
     jobs = [(t, st, complete, seed) for t, st in sorted(spec.items()) if st["ctls"]]
     with mp.get_context("fork").Pool(procs) as pool:
         res = pool.map(_enumerate_type, jobs, chunksize=1)
-    return [e for r in res for e in r]
+        res2 = pool.map(_enumerate_meta, jobs, chunksize=1)
+    return [e for r in res + res2 for e in r]
